@@ -40,7 +40,7 @@ let render (sorted : bool) (r : result) : string =
     (if r.closed then "closed" else "blocked") (out_class r.out)
 
 let runclass_of (s : string) : runclass =
-  match s with "ok" -> ROk | "canceled" -> RCanceled | "hang" -> RHang | _ -> RErr
+  match s with "ok" -> ROk | "canceled" -> RCanceled | "hang" -> RHang | "construct" -> RRefused | _ -> RErr
 
 
 let predict (c : string) (obs : string) : string * string * bool =
@@ -63,11 +63,12 @@ let predict (c : string) (obs : string) : string * string * bool =
       let fuel = nat_of_int (50 * ((max ocount (match bnd with Some b -> b | None -> 0)) + n + 2)) in
       (* model: the context is seen cancelled once [ocount] items were sent, or not at all *)
       let pred =
+        if constructor_refuses k es then "0 - closed construct" else
         (match cancel_m with
          | None -> render sorted (run k cf es None fuel)
          | Some _ ->
              let p_c = render sorted (run k cf es (Some (nat_of_int ocount)) fuel) in
-             if bnd = None then p_c
+             if bnd = None && n > 0 then p_c
              else begin
                let p_none = render sorted (run k cf es None fuel) in
                if p_none = obs then p_none else p_c
